@@ -241,7 +241,9 @@ def full_product_fold(f, b, trait, method, sinks):
 
 def _ops(ctx):
     rep, f = ctx.rep, ctx.facts
-    bodies = [b for b in f.bodies.values() if b.file.endswith('lj2_ops.rs') and b.fn_name == 'mul' and not b.is_closure]
+    # (selected by what they are — `impl Mul<..Transform2..> for ..LJ2..` and the reverse — not by the file they live in)
+    bodies = [b for b in f.bodies.values() if b.fn_name == 'mul' and not b.is_closure and (b.impl_trait or '').endswith('ops::Mul') and
+              'transform::Transform2' in b.path and 'lj2::LJ2' in b.path]
     rep.floor('R6', 'Mul impls between Transform2 and LJ2', len(bodies), 8)
     for b in bodies:
         rep.saw(b)
